@@ -42,12 +42,12 @@ UNIT_KM = {"cm": 1e-5, "centimeter": 1e-5, "centimeters": 1e-5, "m": 1e-3, "mete
 
 def radius_spellings(km):
     """The same radius written in every supported way (thresholds sit mid-gap, so rounding in the unit conversion is harmless)."""
-    out = [km, float(km), "%rkm" % km]
+    out = [km, float(km), "%rkm" % km, "%r" % km, " %r " % km]            # (a number in a string, no unit: kilometres)
     out += ["%r %s" % (km / f, u) for u, f in sorted(UNIT_KM.items())]
     return out
 
 
-N_SPELLINGS = 3 + len(UNIT_KM)
+N_SPELLINGS = 5 + len(UNIT_KM)
 
 
 def run_query(B, Q, k, emb_name, metric, tree, leaf, perm, spelling, shuffle=True, return_distance=True):
